@@ -73,6 +73,7 @@ WHO = ['owner', 'mate', 'stranger', 'developer', 'namesake']     # namesake = ac
 LISTINGS = ['/api/v1alpha/batches', '/api/v2alpha/batches', '/api/v1alpha/batches/completed']
 KEY_CI = 'username filters on batches.user / billing_project_users.user are case-insensitive: a namesake account passes them'
 # keys of the two defects repaired by 4c50f4344 (kept so that a regression is reported under a stable name)
+TTL_MS = 10_000      # gear.auth.TEN_SECONDS_IN_NANOSECONDS, the lifetime of cached userinfo
 KEY_FAST = 'update_batch_fast: a non-owner who sends an existing update token with empty bunch/job_groups commits the update'
 KEY_CREATE = 'create_update: a non-owner who sends an existing update token gets 2xx with the update ids instead of an error'
 
@@ -97,7 +98,11 @@ class C14(Prop):
                   'is not a namesake of the owner (owner_only_partial): batches.user and billing_project_users.user are case-insensitive '
                   'columns, so the account `Alice` passes every owner filter and the listings of `alice` (known finding, refuted in Lean as '
                   'owner_only_fails / all_user_filters_case_sensitive_fails); _user_can_access compares user_cs (member_filter_case_sensitive). '
-                  'The control flow before commit 4c50f4344 is kept as mutateOld with its refutation.')
+                  'The control flow before commit 4c50f4344 is kept as mutateOld with its refutation. Time dimension: in the model of the '
+                  'authenticator + userinfo cache (Model/SessionCache) a request is let through only if the auth service called the user '
+                  'active less than one cache lifetime ago (Session.staleness_bounded, all schedules); the real AuthServiceAuthenticator with '
+                  'its real TimeLimitedMaxSizeCache is compared with that model on random request / deactivate / revoke schedules under a '
+                  'patched time.monotonic_ns.')
     level_note = ('PARTIAL for the owner-only mutators: `mutate` is a hand model of which check comes first, tied to the real handlers only by '
                   'the 39 scenario runs over minisql (MySQL itself is not available; the deprecated close_batch answers 500 to every caller on the current schema — Unknown column job_groups.deleted — so its owner case is not run). The decorator semantics (`guard`) are tied by exhaustive '
                   'differential runs (68 routes x 256 callers, plus name-sake variants and billing-administration requests with real bodies + DB diff) with the session lookup stubbed at Authenticator._fetch_userdata and aiohttp '
@@ -110,12 +115,13 @@ class C14(Prop):
     trusted = ['harness/extract/routes.py (AST walker; registrations it does not understand raise TieBroken)',
                'harness/minisql executing the repo\'s SQL in place of MySQL', 'aiohttp.test_utils.make_mocked_request as the request',
                'closure-cell patching to put a probe in place of the innermost handler body',
-               'harness/svcenv.py + minisql/env.py: env vars / global-config read at import']
+               'harness/svcenv.py + minisql/env.py: env vars / global-config read at import',
+               'session schedules: aiohttp_session.get_session replaced by an empty session (the id travels as Bearer token), the auth service is a fake httpx client, time.monotonic_ns is the schedule clock']
     assumptions = ['the session lookup (_fetch_userdata / auth service) returns the true userdata of the caller',
                    'aiohttp dispatches a request only to the handler object registered for its method and path',
                    'decorators can reach the handler body only through the function they wrap (Python closure semantics)',
                    'no account has a name equal to another account\'s name up to case/accents (hypothesis of owner_only_partial; false in general: auth usernames are unique case-SENSITIVELY)']
-    budget = {'quick': 0, 'thorough': 0}          # the case space is enumerated completely in both tiers
+    budget = {'quick': 0, 'thorough': 0}          # guards/admin/owner/listing: enumerated completely; session schedules: 400 / 6000 random
     search_budget = {'quick': 0, 'thorough': 0}
 
     # ---- T ----------------------------------------------------------------------------------------------------------------
@@ -152,6 +158,19 @@ class C14(Prop):
         async def fetch(request):
             return self.cur_userdata
         fe.auth._fetch_userdata = fetch          # the boundary: session id -> userdata (auth service)
+
+        # the real authenticator (real TimeLimitedMaxSizeCache) for the session schedules: only the cookie-session lookup of
+        # gear.auth.get_session_id (aiohttp_session, a loader stub) is replaced; the session id travels as a Bearer token
+        import types as _types
+
+        import gear.auth as ga
+        fake_as = _types.ModuleType('aiohttp_session')
+
+        async def get_session(request):
+            return {}
+        fake_as.get_session = get_session
+        ga.aiohttp_session = fake_as
+        self.ga = ga
 
         # real route table
         self.real = {}
@@ -285,6 +304,8 @@ class C14(Prop):
         for key in ADMIN_ROUTES:
             for who in ADMIN_WHO:
                 yield {'kind': 'admin', 'route': key, 'who': who}
+        for _ in range(400 if tier == 'quick' else 6000):
+            yield {'kind': 'session', 'events': self.gen_schedule(rng)}
         for path in LISTINGS:
             for who in WHO:
                 yield {'kind': 'list', 'route': path, 'who': who}
@@ -303,6 +324,24 @@ class C14(Prop):
                 for tok, payload in variants:
                     yield {'kind': 'owner', 'handler': h, 'who': who, 'token': tok, 'payload': payload}
 
+    @staticmethod
+    def gen_schedule(rng):
+        """requests, clock advances (ms) and changes of the auth service's answer for the session; the session is often kept warm
+        (requests less than one cache lifetime apart) across a deactivation / revocation"""
+        ev = ['r']
+        warm = rng.random() < 0.6
+        for _ in range(rng.randint(3, 14)):
+            r = rng.random()
+            if r < 0.2:
+                ev.append(rng.choice(['s1', 's2', 's1', 's2', 's0']))
+            gap = rng.choice([1, 500, 2500, 4000, 7000, 9000, 9999]) if warm else rng.choice([1, 3000, 9999, 10000, 10001, 15000, 30000])
+            ev.append(f'a{gap}')
+            ev.append('r')
+        if rng.random() < 0.5:
+            # exact boundary: a load, then exactly one lifetime (or 1 ms less) until the next request
+            ev += [rng.choice(['s1', 's2']), f'a{rng.choice([TTL_MS - 1, TTL_MS, TTL_MS + 1])}', 'r']
+        return ev
+
     def search_cases(self, rng, n, hint):
         return []     # the regular case stream already enumerates everything
 
@@ -311,6 +350,8 @@ class C14(Prop):
             return ['guard %d %s' % (self._index(c['route']), ' '.join('1' if c['caller'].get(f) else '0' for f in CALLER_FIELDS))]
         if c['kind'] == 'admin':
             return ['adm %d %d' % (c['who'] == 'developer', c['who'] == 'auth')]
+        if c['kind'] == 'session':
+            return ['sess %d %s' % (TTL_MS, ' '.join(c['events']))]
         if c['kind'] == 'list':
             return ['list %d %d' % (c['who'] in ('owner', 'mate'), c['who'] == 'namesake')]
         m = MUTATORS[c['handler']][0]
@@ -461,9 +502,62 @@ class C14(Prop):
             self._cache[k] = (status, reason, sorted(t for t in after if after[t] != before.get(t)))
         return self._cache[k]
 
+    def _session(self, c):
+        """the REAL AuthServiceAuthenticator (fresh instance, real TimeLimitedMaxSizeCache, real impersonate_user / retry_transient_errors)
+        in front of a probe handler; the auth service is a fake HTTP client whose answer follows the schedule; time.monotonic_ns is
+        the schedule's clock"""
+        k = json.dumps(c, sort_keys=True)
+        if k in self._cache:
+            return self._cache[k]
+        import time as _time
+
+        import aiohttp
+        ga, web = self.ga, self.web
+        svc = {'state': 's0'}
+        clock = {'ms': 0}
+        calls = []
+
+        class AuthService:
+            async def get_read_json(self_, url, headers=None, **kw):
+                assert url.endswith('/api/v1alpha/userinfo'), url
+                calls.append(clock['ms'])
+                if svc['state'] == 's2':
+                    raise aiohttp.ClientResponseError(None, (), status=401, message='Unauthorized')
+                return self.ud('erin', state='active' if svc['state'] == 's0' else 'inactive')
+
+        authn = ga.AuthServiceAuthenticator()
+
+        async def body(request, userdata):
+            return web.Response()
+        handler = authn.authenticated_users_only()(body)
+        app = web.Application()
+        app[ga.CommonAiohttpAppKeys.CLIENT_SESSION] = AuthService()
+        saved = _time.monotonic_ns
+        _time.monotonic_ns = lambda: 1_000_000_000_000 + clock['ms'] * 1_000_000
+        out = []
+        try:
+            for e in c['events']:
+                if e == 'r':
+                    req = self.mk('GET', '/api/v1alpha/batches', headers={'Authorization': 'Bearer session-1'}, app=app)
+                    try:
+                        resp = self.loop.run_until_complete(handler(req))
+                        out.append((clock['ms'], resp.status))
+                    except web.HTTPException as ex:
+                        out.append((clock['ms'], ex.status))
+                elif e.startswith('a'):
+                    clock['ms'] += int(e[1:])
+                else:
+                    svc['state'] = e
+        finally:
+            _time.monotonic_ns = saved
+        self._cache[k] = out
+        return out
+
     def impl(self, c):
         if c['kind'] == 'guard':
             return [self._guard(c)[1]]
+        if c['kind'] == 'session':
+            return [','.join(str(st) for _, st in self._session(c))]
         if c['kind'] == 'admin':
             status, reason, changed = self._admin(c)
             if c['who'] in ('developer', 'auth'):
@@ -498,6 +592,24 @@ class C14(Prop):
                         f'class {cls}')
             if not entered and writes:
                 return f'denied-but-wrote: {method} {path_t} ({r["handler"]}) refused [{who}] but executed {writes[0][:80]!r}'
+            return None
+        if c['kind'] == 'session':
+            # the property over time: a request arriving one cache lifetime or more after the auth service stopped calling the user
+            # active / authenticated must be refused (inside the lifetime the documented cache may still answer)
+            results = iter(self._session(c))
+            t, state, bad_since = 0, 's0', None
+            for e in c['events']:
+                if e == 'r':
+                    at, status = next(results)
+                    if status == 200 and bad_since is not None and t - bad_since >= TTL_MS:
+                        return (f'stale session: the request at t={t} ms was answered 200 although the auth service has said '
+                                f'{"inactive" if state == "s1" else "revoked (401)"} since t={bad_since} ms, {t - bad_since} ms ago '
+                                f'(cache lifetime {TTL_MS} ms); schedule {" ".join(c["events"])}')
+                elif e.startswith('a'):
+                    t += int(e[1:])
+                else:
+                    state = e
+                    bad_since = None if e == 's0' else (t if bad_since is None else bad_since)
             return None
         if c['kind'] == 'admin':
             status, reason, changed = self._admin(c)
@@ -546,7 +658,18 @@ class C14(Prop):
             tags = ['guard:' + outcome, 'class:' + cls]
             nontrivial = outcome != 'allow' or cls != 'pub'
             return (json.dumps(c, sort_keys=True) if nontrivial else None, tags)
+        if c['kind'] == 'session':
+            sts = line.split(',')
+            changed = any(e in ('s1', 's2') for e in c['events'])
+            return (json.dumps(c, sort_keys=True) if changed else None,
+                    ['session:refused-after-change' if changed and sts[-1] != '200' else 'session:other'])
         return (json.dumps(c, sort_keys=True), [f'{c["kind"]}-case:{c["who"]}:{line}'])
+
+    def shrink(self, c, fails):
+        if c.get('kind') != 'session' or not fails(c):
+            return c
+        from ..framework import generic_shrink_list
+        return {**c, 'events': generic_shrink_list(c['events'], lambda ev: fails({**c, 'events': ev}))}
 
     def extra_checks(self, repo, tier, rng):
         """the generated table and the real RouteTableDef must list the same (method, path) registrations"""
